@@ -1323,6 +1323,16 @@ void Run::execute() {
     };
   }
   simos::registerProgram("/sim/bin/cc", [self](simos::ProcCtx& c) { return self->toolProgram(c); });
+  // failure mode "spawn": the process cannot be created at all (the tool never runs)
+  simos::hooks().spawnFault = [self](const std::string&, const std::vector<std::string>& argv) -> int {
+    if (argv.size() < 2) return 0;
+    auto it = self->failFlags.find(argv[1]);
+    if (it == self->failFlags.end() || it->second != "spawn") return 0;
+    static const int errs[] = {EAGAIN, ENOMEM, ENOENT, EACCES};
+    self->res.counters["spawn_failures_injected"]++;
+    self->ev("spawn-refused " + argv[1]);
+    return errs[self->buildNo % 4];
+  };
   for (auto& op : plan.geta("history")) {
     std::string kind = op.gets("op");
     if (kind == "build") {
@@ -2213,6 +2223,7 @@ struct Gen {
         std::string victim = shells[rng.below(shells.size())];
         static const char* modes[] = {"exit", "signal", "partial", "baddeps", "baddeps2"};
         std::string mode = modes[rng.below(property == "C11" ? 5 : 3)];
+        if (property == "C10" && rng.chance(200)) mode = "spawn";   // posix_spawn itself fails
         const Cmd* vc = desc.byName(victim);
         if ((mode == "baddeps" || mode == "baddeps2") && (!vc || vc->deps.empty())) mode = "exit";
         std::string firstFile;
